@@ -74,6 +74,13 @@ CLAIMED = {
          "minimum -> lower bound, non-decreasing, inside the range. The implementation is judged on the RGB lattice and by exact order "
          "predicates on generated stretch requests",
          "Rocq proof (Reals + Interval) + Python-ast translator + property oracles on the implementation"),
+ "C15": ("proof", "Coq theorems: thin only deletes (subset) and stops only at a fixpoint of a whole round; [fin] every structuring "
+         "element RE-TRANSLATED from _thin.cpp matches only simple points (8 elements x 256 neighbourhoods); [fin] the Euler "
+         "lookup tables RE-TRANSLATED from euler.py are the per-window V-E+F contributions of the closed/open pixel complex; each "
+         "monotone chain of the hull consists of input points with strictly turning consecutive triples. Global topology "
+         "preservation, components-minus-holes and hull containment are judged on every generated / exhaustive (<=3x5) case by "
+         "independent evaluation; thin, euler and convexhull are compared with the extracted models",
+         "Rocq proof + finite sweeps + translator + differential correspondence"),
 }
 NOT_YET = "check not built yet in this round (see DESIGN.md section 8 for the plan)"
 ALL = ["C%02d" % i for i in range(1, 21)]
